@@ -185,7 +185,22 @@ def run(tier):
         nxs = [rnd.randint(-3, 43) for _ in range(rnd.randint(1, 5))]
         apps.append({'kind': 'w', 'xs': xs, 'nxs': nxs,
                      'ex': rnd.random() < 0.5})
-    todo = cases + apps
+    # the same grids far from the origin (epoch seconds, julian days, heights
+    # above sea level): coordinates that are large compared with their spacing
+    far = []
+    pool_w = [c for c in cases if c['kind'] == 'w' and len(c['xs']) >= 2]
+    pool_a = [c for c in apps if c['kind'] == 'app' and len(c['xs']) >= 2]
+    for c in rnd.sample(pool_w, min(len(pool_w), 400 if tier == 'quick'
+                                    else 4000)) + \
+            rnd.sample(pool_a, min(len(pool_a), 150 if tier == 'quick'
+                                   else 1500)):
+        off = rnd.choice([100000, 2450000, 1600000000])
+        d = dict(c)
+        d['xs'] = [x + off for x in c['xs']]
+        d['nxs'] = [x + off for x in c['nxs']]
+        far.append(d)
+    out.cov['far_from_origin_cases'] = len(far)
+    todo = cases + apps + far
     for i, c in enumerate(todo):
         c['tid'] = i + 1
     res = run_cases(run_case, todo, timeout=60, per_child=400, chunksize=40)
